@@ -805,7 +805,7 @@ def gen_history(loader, check, replay_on=True):
     rejected while an effect was still pending (the reset / entry-point contracts of C14, restricted to the pending table)"""
     from . import c14
     saved = getattr(check, "ob_filter", None)
-    check.ob_filter = r"#reset\.holder\.hybrid_effect_dict|#total"
+    check.ob_filter = r"#reset\.holder\.hybrid_effect_dict|#total|#history-independent"
     try:
         c14.gen_reset(loader, check, replay_on)
         c14.gen_entry_points(loader, check, replay_on)
